@@ -215,6 +215,7 @@ fn c18() -> usize {
     pool.extend([Value::Float(Some(f32::NAN)), Value::Float(Some(-f32::NAN)), Value::Float(Some(0.0)), Value::Float(Some(-0.0)), Value::Double(Some(f64::NAN)), Value::Double(Some(0.0)), Value::Double(Some(-0.0)), Value::Double(Some(1.0)),
                  Value::Int(Some(2)), Value::BigInt(Some(2)), Value::String(Some(Box::new("null".into()))), Value::String(Some(Box::new(String::new()))), Value::Bytes(Some(Box::new(vec![]))), Value::Bytes(Some(Box::new(b"s".to_vec()))),
                  j(serde_json::json!("null")), j(serde_json::json!({"a": 1, "b": 2})), j(serde_json::json!({"b": 2, "a": 1})), j(serde_json::json!([1])), Value::Char(Some('s')),
+                 j(serde_json::json!(0.0)), j(serde_json::json!(-0.0)), j(serde_json::json!({"a": 0.0})), j(serde_json::json!({"a": -0.0})), j(serde_json::json!(1)), j(serde_json::json!(1.0)),
                  Value::Array(sea_query::ArrayType::Int, None), Value::Array(sea_query::ArrayType::BigInt, None), Value::Array(sea_query::ArrayType::Int, Some(Box::new(vec![]))), Value::Array(sea_query::ArrayType::Int, Some(Box::new(vec![Value::Int(Some(1))]))),
                  Value::Array(sea_query::ArrayType::BigInt, Some(Box::new(vec![])))]);
     // pgvector payloads: NULL, the empty vector, vectors where one is a PREFIX of the other, signed zeros / NaN components
